@@ -1,1 +1,4 @@
 //! Execution substrates
+pub mod s4;
+pub mod s4drive;
+pub mod codecs;
